@@ -116,6 +116,10 @@ def programs(tier):
             for c0 in ('call', 'waito'):
                 for s in ('GA', 'GB', 'GC', 'GD'):
                     yield (c0, s), 2, rev, tp
+        # two waiters suspended on the SAME event (wait by name is satisfied by the first event of that name), one impatient
+        for tp in ((1, 9), (9, 1), (0, 9), (2, 20)):
+            for s in ('S3', 'S4', 'GC', 'GA'):
+                yield ('waitn', s), 2, rev, tp
 
 
 def build(program):
